@@ -19,8 +19,8 @@ pub enum Kind {
 
 pub fn kind_of(c: usize) -> Kind {
     match c {
-        2 => Kind::Int,
-        3 => Kind::Float,
+        2 | 10 | 11 | 12 => Kind::Int,
+        3 | 16 | 17 | 18 => Kind::Float,
         4 => Kind::UInt,
         8 => Kind::Bool,
         _ => Kind::Str,
@@ -94,6 +94,8 @@ pub struct ColDom {
     pub col: usize,
     pub kind: Kind,
     pub vals: Vec<V>,
+    /// the chunk carries no statistics for this column (a sibling of the family does)
+    pub no_stats: bool,
 }
 
 pub fn gen_domain(rng: &mut Rng, col: usize) -> ColDom {
@@ -105,10 +107,42 @@ pub fn gen_domain(rng: &mut Rng, col: usize) -> ColDom {
         Kind::Str => str_domain(rng).into_iter().map(V::Str).collect(),
         Kind::Bool => vec![V::Bool(false), V::Bool(true)],
     };
-    ColDom { col, kind, vals }
+    ColDom { col, kind, vals, no_stats: false }
 }
 
-pub fn gen_columns(rng: &mut Rng) -> Vec<ColDom> {
+/// 2-3 columns of one family (names differing only in case / sharing a
+/// prefix), each with its own domain; a non-empty proper subset has statistics
+pub fn gen_family_columns(rng: &mut Rng, report: &mut Report) -> Vec<ColDom> {
+    let fam = *rng.pick(&FAMILIES);
+    let n = rng.range_usize(2, fam.len().min(3));
+    let mut cols: Vec<usize> = Vec::new();
+    while cols.len() < n {
+        let c = *rng.pick(fam);
+        if !cols.contains(&c) {
+            cols.push(c);
+        }
+    }
+    let mut doms: Vec<ColDom> = cols.into_iter().map(|c| gen_domain(rng, c)).collect();
+    // which members carry statistics: at least one does, at least one does not
+    let with = rng.below(doms.len() as u64) as usize;
+    let mut without = rng.below(doms.len() as u64 - 1) as usize;
+    if without >= with {
+        without += 1;
+    }
+    for (i, d) in doms.iter_mut().enumerate() {
+        d.no_stats = i == without || (i != with && rng.chance(1, 2));
+        if d.no_stats && COLS[d.col].chars().all(|c| !c.is_uppercase()) {
+            report.bump("family.lower_case_member_without_stats");
+        }
+    }
+    report.bump("family.cases");
+    doms
+}
+
+pub fn gen_columns(rng: &mut Rng, report: &mut Report) -> Vec<ColDom> {
+    if rng.chance(1, 4) {
+        return gen_family_columns(rng, report);
+    }
     let pool = [2usize, 3, 4, 5, 7, 8, 2, 3, 5];
     let n = rng.range_usize(1, 3);
     let mut cols: Vec<usize> = Vec::new();
@@ -221,6 +255,9 @@ fn step(v: &V, up: bool) -> V {
 pub fn gen_stats(rng: &mut Rng, doms: &[ColDom], rows: &[Row], report: &mut Report) -> Vec<Stat> {
     let mut out = Vec::new();
     for d in doms {
+        if d.no_stats {
+            continue;
+        }
         let Some((lo, hi)) = true_min_max(d, rows) else {
             if rng.chance(1, 2) {
                 // no value of the column's kind: statistics from the domain
@@ -404,7 +441,7 @@ impl Case {
 }
 
 pub fn gen_case(rng: &mut Rng, report: &mut Report) -> Case {
-    let doms = gen_columns(rng);
+    let doms = gen_columns(rng, report);
     let rows = gen_rows(rng, &doms, report);
     let stats = gen_stats(rng, &doms, &rows, report);
     let depth = *rng.pick(&[0u32, 0, 1, 1, 2, 3]);
